@@ -518,18 +518,21 @@ class Evaluator:
 
     def order_limit(self, q, out, src):
         """ORDER BY / LIMIT / OFFSET.  NULL sort keys are ordered by the explicit NULLS FIRST/LAST of the key or, without one, by the
-        engine default self.null_order.  Key tuples of present rows are assumed pairwise distinct (recorded in self.assumptions:
-        ties leave the order to the engine's discretion and are outside the claim).  The rank of each row is kept in rel._ranks."""
+        engine default self.null_order.  Present rows with equal key tuples are assumed identical in every output column (recorded in
+        self.assumptions: other ties leave the order to the engine's discretion and are outside the claim).  The rank of each row is kept in rel._ranks."""
         n = len(out.rows)
         if q.order_by:
             keys = self.sort_keys(q.order_by, out, src)
             key_eq, before = self._key_eq, (lambda i, j: self._before(keys, i, j))
+            # ties: two present rows with equal key tuples must be identical in every output column (then any tie-break gives the same
+            # sequence of values; it is broken by row index here); other ties leave the order to the engine and are outside the claim
             for i in range(n):
                 for j in range(i + 1, n):
                     both = z3.And(out.rows[i][0], out.rows[j][0])
                     distinct_keys = z3.Or([z3.Not(key_eq(ki[0], kj[0])) for ki, kj in zip(keys[i], keys[j])])
-                    self.assumptions.append(z3.Implies(both, distinct_keys))
-            ranks = [z3.Sum([z3.If(z3.And(out.rows[j][0], before(j, i)), 1, 0) for j in range(n) if j != i]) if n > 1 else z3.IntVal(0)
+                    self.assumptions.append(z3.Implies(both, z3.Or(distinct_keys, row_eq(out.rows[i][1], out.rows[j][1]))))
+            ranks = [z3.Sum([z3.If(z3.And(out.rows[j][0], z3.Or(before(j, i), z3.And(self._peers(keys, j, i), z3.BoolVal(j < i)))), 1, 0)
+                             for j in range(n) if j != i]) if n > 1 else z3.IntVal(0)
                      for i in range(n)]
         else:
             if q.limit is None and q.offset is None:
@@ -547,7 +550,7 @@ class Evaluator:
                 keep = z3.And(keep, ranks[i] < off + lim)
             rows.append((z3.And(p, keep), cs))
         rel = Rel(out.cols, rows)
-        rel._ranks = ranks
+        rel._ranks = [rk - off for rk in ranks]     # position within the returned window (0 = first returned row)
         if getattr(out, '_unordered_limit', False):
             rel._unordered_limit = True
         return rel
@@ -726,6 +729,12 @@ def bags_differ(a, b):
     return z3.Or(alts) if alts else FALSE
 
 
+def with_rank(rel):
+    """the relation with the position of each row (rel._ranks, set by ORDER BY) as an extra column: comparing these as bags compares
+    the results as sequences (positions are unique under the tie-free assumption)"""
+    return Rel(list(rel.cols) + [Col('#position')], [(p, list(cs) + [(FALSE, rk)]) for (p, cs), rk in zip(rel.rows, rel._ranks)])
+
+
 def concrete_rows(rel, model):
     out = []
     for p, cs in rel.rows:
@@ -761,7 +770,7 @@ def connect():
 def sqlite_rows(sql, schema, data):
     con = connect()
     for t, cols in schema.items():
-        con.execute('CREATE TABLE %s (%s)' % (t, ', '.join('%s INTEGER' % c for c in cols)))
+        con.execute('CREATE TABLE %s (%s)' % (t, ', '.join('"%s" INTEGER' % c for c in cols)))
         for r in data.get(t, []):
             con.execute('INSERT INTO %s VALUES (%s)' % (t, ', '.join('?' * len(cols))), r)
     return [tuple(int(x) if isinstance(x, bool) else x for x in row) for row in con.execute(sql).fetchall()]
